@@ -28,9 +28,9 @@ def run(tier: str) -> int:
     fields = S.struct_fields(src)
     chk.bounds = {'part1': 'all 31 legal table lengths (symbolic power of two <= 2^30), all 64-bit size_ctl / transfer_index values',
                   'part3': 'initial lengths 2, 4, 8, 64; up to 3 doublings; list bins and tree bins (split and unsplit); symbolic keys',
-                  'threads': '1 (helpers and interleavings: not covered by parts 1 and 3)'}
+                  'threads': 'parts 1 and 3: one thread; part 2: 2-3 logical threads'}
     chk.assumptions = ['sequential semantics of compare_exchange inside one function', 'callees that are not inlined are havoc',
-                       'part 2 of the design (k<=3 threads claiming strides / joining / leaving under every schedule) is not built: overlap of generations under real interleavings is NOT decided here']
+                       'part 2 decides overlap / double migration only for the small cooperating-thread scenarios listed in bounds.part2 (<= 3 threads, <= 3 preemptions); a schedule-dependent counterexample is replayed in the interpreter, not natively']
     findings = []
 
     def oblige(name, assumptions, claim):
@@ -114,6 +114,134 @@ def run(tier: str) -> int:
                 oblige('%s cas#%d: a helper registers with size_ctl := sc+1' % (fname, i), o.pc + [exp < 0], new == exp + 1)
                 oblige('%s cas#%d: nobody joins once the finisher is chosen (sc = rs+1) or the helper limit is reached' % (fname, i), o.pc + [exp < 0],
                        z3.And(exp != rs + 1, exp != rs + maxres.v))
+    # ---- Q4b rely-guarantee: generations never overlap, for any number of other threads and ALL table lengths.
+    # Before every atomic access of the function under analysis the shared cells (table, size_ctl, next_table,
+    # transfer_index) are replaced by fresh values: other threads may have done anything that keeps the protocol
+    # invariant INV and moves forward (RELY).  Guarantee to show: whenever the function calls transfer(t, nt) - after
+    # registering itself in size_ctl - t is the table that is current at the instant of that registration.  A thread that
+    # enters transfer with an older table works on generation k while size_ctl counts it in generation k+1: the overlap
+    # the property excludes (the finisher accounting of both generations is then wrong).
+    #   INV  I1 table != null => legal length
+    #        I2 size_ctl < -1 => it carries the stamp of a legal length G with G = len(table), or
+    #           (2G = len(table) and size_ctl = rs(G)+1 and next_table = null)   [finisher between table swap and size_ctl store]
+    #        I3 size_ctl >= 0 and table != null => size_ctl = 0.75 len(table)
+    #        I4 next_table != null => size_ctl < -1, G = len(table), len(next_table) = 2 len(table)
+    #        I5 before initialisation size_ctl is 0 or the power-of-two length to allocate; the table is allocated at least that long
+    #        I6 size_ctl = -1 together with a table => that table is the first table the map ever had
+    #   RELY table lengths never decrease, a different table is strictly longer, equal length = same table; G never decreases
+    fields_rg = dict(fields)
+    for (owner, idx), nm in list(fields.items()):
+        if owner == 'Table':
+            fields_rg[(owner, idx)] = 'tbl_' + nm
+    SHARED = ('table', 'size_ctl', 'next_table', 'transfer_index')
+    rg_counter = [0]
+    FT = z3.BitVec('first_table', 64)
+
+    def asha(x):
+        return x >> sh          # arithmetic shift on signed 64-bit
+
+    def rs_of(nv):
+        return z3.substitute(st_n, (n, nv)) << sh
+
+    def inv_of(eng, T, SC, NT, G):
+        tl = eng.table_len
+        return [z3.Implies(T != 0, legal(tl(T))),
+                z3.Implies(SC < -1, z3.And(legal(G), asha(SC) == asha(rs_of(G)), T != 0,
+                                           z3.Or(G == tl(T), z3.And(G + G == tl(T), SC == rs_of(G) + 1, NT == 0)))),
+                z3.Implies(z3.And(SC >= 0, T != 0), SC == tl(T) - z3.LShR(tl(T), 2)),
+                z3.Implies(z3.And(SC > 0, T == 0), z3.And(is_pow2(SC), z3.ULE(SC, bv(MAXCAP)))),       # before initialisation size_ctl is the (power of two) table size to allocate
+                z3.Implies(NT != 0, z3.And(SC < -1, G == tl(T), tl(NT) == tl(T) + tl(T), NT != T, legal(tl(NT)))),
+                # FT = the first table this map ever had.  size_ctl = -1 (initialisation marker) coexists with a table only while
+                # that table is the first one: between its publication and the threshold store, or transiently when a thread that
+                # read "no table, size hint h" long ago wins CAS(h -> -1) against the equal threshold of the (2-bin) first table
+                z3.Implies(T != 0, z3.And(FT != 0, z3.UGE(tl(T), tl(FT)), z3.Implies(tl(T) == tl(FT), T == FT))),
+                z3.Implies(z3.And(SC == -1, T != 0), T == FT)]
+
+    def rely_of(eng, p, q):
+        tl = eng.table_len
+        (T, SC, NT, G), (T2, SC2, NT2, G2) = p, q
+        return [z3.Implies(T != 0, z3.And(T2 != 0, z3.UGE(tl(T2), tl(T)))),
+                z3.Implies(z3.And(T != 0, T2 != T), z3.UGT(tl(T2), tl(T))),
+                z3.Implies(z3.And(T != 0, T2 != 0, tl(T2) == tl(T)), T2 == T),
+                z3.Implies(z3.And(SC < -1, SC2 < -1), z3.UGE(G2, G)),
+                z3.Implies(SC < -1, z3.And(T2 != 0, z3.UGE(tl(T2), G))),
+                z3.Implies(z3.And(T == 0, SC > 0, T2 != 0), z3.UGE(tl(T2), SC))]       # the table is allocated at least as long as the recorded hint
+
+    def interfere(eng, cell, op):
+        if cell not in SHARED:
+            return
+        rg_counter[0] += 1
+        k = rg_counter[0]
+        # the last state this path observed (own writes and havocked callees in between also only move the protocol forward)
+        prev = eng.cells.get('__rg_last')
+        T, SC, NT, G, TI = (z3.BitVec('%s_%d' % (nm, k), 64) for nm in ('T', 'SC', 'NT', 'G', 'TI'))
+        import os
+        if os.environ.get('VERIF_DEBUG_RG'):
+            print('  interfere', k, cell, op, 'prev=', None if prev is None else [str(x)[:30] for x in prev])
+        cs = inv_of(eng, T, SC, NT, G)
+        if prev is not None:
+            cs += rely_of(eng, prev, (T, SC, NT, G))
+        for c in cs:
+            eng.solver.add(c)
+            eng.pc.append(c)
+        eng.cells['table'] = S.Ptr(T, 'table')
+        eng.cells['size_ctl'] = S.Int(SC, 'isize')
+        eng.cells['next_table'] = S.Ptr(NT, 'next_table')
+        eng.cells['transfer_index'] = S.Int(TI, 'isize')
+        eng.cells['__G'] = S.Int(G, 'usize')
+        eng.cells['__rg_last'] = (T, SC, NT, G)
+
+    rg_fail = []
+    for fname in ('map::HashMap::add_count', 'map::HashMap::help_transfer', 'map::HashMap::try_presize'):
+        f = prog.get(fname)
+        eng = mk_engine(prog, fields_rg, inline=('resize_stamp', 'Table::next_table'), observe=('HashMap::transfer',), loop_bound=1)
+        eng.cell_ty.update({'size_ctl': 'isize', 'table': 'ptr', 'count': 'isize', 'transfer_index': 'isize', 'next_table': 'ptr', 'tbl_next_table': 'ptr'})
+        eng.pre_atomic = interfere
+        targ = z3.BitVec('t_arg', 64)
+        if fname.endswith('add_count'):
+            hint = S.Enum('Option', bv(1), {1: [S.Int(z3.BitVec('hint', 64), 'usize')], 0: []})
+            args = [self_ptr(), S.Int(bv(1), 'isize'), hint, guard_ptr()]
+            pre = []
+        elif fname.endswith('help_transfer'):
+            args = [self_ptr(), S.Ptr(targ, "reclaim::Shared<'_, raw::Table<K, V>>"), guard_ptr()]
+            pre = [z3.Implies(targ != 0, legal(eng.table_len(targ)))]
+        else:
+            args = [self_ptr(), S.Int(z3.BitVec('size', 64), 'usize'), guard_ptr()]
+            pre = []
+        obs = eng.run(f, args, pre)
+        nstates_rg = eng.steps
+        calls = [o for o in obs if o.kind == 'call' and o.name.endswith('HashMap::transfer')]
+        chk.obligation('%s (under interference): reaches a transfer call (vacuity witness)' % fname, 'sat-expected' if calls else 'violated', nontrivial=False)
+        for i, o in enumerate(calls):
+            t_arg, nt_arg = o.args[1], o.args[2]
+            cells = o.extra['cells']
+            if 'table' not in cells or not isinstance(t_arg, S.Ptr):
+                chk.inconclusive.append('%s: transfer call #%d not analysable (%r)' % (fname, i, t_arg))
+                continue
+            T_now = cells['table'].v
+            feas, _ = S.satisfiable(o.pc, 'C10 rg %s call#%d feasible?' % (fname, i))
+            if not feas:
+                continue
+            name = '%s call#%d @ %s: transfer is entered with the table that is current when the thread registers in size_ctl (no generation overlap), for every interference allowed by INV/RELY' % (fname, i, (o.span or '').split(': ')[0])
+            ok, mdl = S.valid(o.pc, t_arg.v == T_now, 'C10 rg ' + name[:60], cross=(i % 4 == 0))
+            chk.obligation(name, 'unsat' if ok else 'sat')
+            if not ok:
+                tl = eng.table_len
+                info = {'len(table passed to transfer)': mdl.eval(tl(t_arg.v), model_completion=True).as_long(), 'len(current table at the size_ctl CAS)': mdl.eval(tl(T_now), model_completion=True).as_long()}
+                cas = [eng.obs[j] for j in o.trail if eng.obs[j].kind == 'cas' and eng.obs[j].name == 'size_ctl']
+                if cas:
+                    info['size_ctl expected by the CAS'] = mdl.eval(cas[-1].args[0].v, model_completion=True).as_signed_long()
+                    info['size_ctl written'] = mdl.eval(cas[-1].args[1].v, model_completion=True).as_signed_long()
+                rg_fail.append((fname, name, info, (o.span or '').split(': ')[0]))
+                import os
+                if os.environ.get('VERIF_DEBUG_RG'):
+                    print('RGFAIL', fname, i, info)
+                    for dcl in sorted(mdl.decls(), key=lambda x: x.name()):
+                        nm = dcl.name()
+                        if re.match(r'(T|SC|NT|G|TI)_\d+$', nm) or nm in ('t_arg', 'size', 'table_len'):
+                            print('   ', nm, mdl[dcl] if nm == 'table_len' else (mdl[dcl].as_signed_long() if nm.startswith('SC') else hex(mdl[dcl].as_long())))
+    chk.coverage['rely_guarantee'] = {'functions': ['add_count', 'help_transfer', 'try_presize'], 'interference_points': rg_counter[0]}
+
     # ---- Q5 transfer: leaving decrements by one; exactly the thread that sees rs+2 finishes
     f = prog.get('map::HashMap::transfer')
     chk.encoded(f)
@@ -206,6 +334,30 @@ def run(tier: str) -> int:
             continue
         seen.add(key)
         confirm(chk, 'C10', byname[x.scenario], x)
+    # ---- part 2: cooperating threads under every schedule within the preemption bound (interleaving engine on the real MIR).
+    # The crate's own generation asserts (`transfer`: next table is exactly twice as long; `add_count`/`help_transfer`:
+    # stamps), a double migration (ledger: a node cloned / retired twice), a lost entry (linearizability + final contents)
+    # and the end state (size_ctl = 0.75*len, next_table null, transfer_index, no lock held) are the oracles.
+    from ..concheck import ConcScenario
+    from ._conc import run_conc, report
+    th = tier == 'thorough'
+    pz = 3 if th else 2
+    cs = [
+        ConcScenario('coop/insert-vs-insert/2bins', hasher='identity', capacity=1, prefill=[0], threads=[[('insert', 1)], [('insert', 2)]], preemptions=pz, ncpu=2, inv='resize'),
+        ConcScenario('coop/reserve-vs-reserve', hasher='identity', capacity=1, prefill=[0], threads=[[('reserve', 6)], [('reserve', 6)]], preemptions=2, ncpu=2, yield_loads=th, inv='resize'),
+        ConcScenario('coop/reserve-vs-insert', hasher='identity', capacity=1, prefill=[0, 1], threads=[[('reserve', 6)], [('insert', 2)]], preemptions=2, ncpu=2, yield_loads=th, inv='resize'),
+        # one preemption at every access (loads included): a thread suspended between any two reads of try_presize while the other finishes a whole resize
+        ConcScenario('coop/reserve-big-vs-reserve-small/p1', hasher='identity', capacity=1, prefill=[0], threads=[[('reserve', 20)], [('reserve', 3)]], preemptions=(2 if th else 1), ncpu=2, yield_loads=True, inv='resize'),
+        ConcScenario('coop/reserve-vs-insert-growth/p1', hasher='identity', capacity=1, prefill=[0], threads=[[('reserve', 20)], [('insert', 1), ('insert', 2)]], preemptions=(2 if th else 1), ncpu=2, yield_loads=True, inv='resize'),
+        ConcScenario('coop/insert-x3/2bins', hasher='identity', capacity=1, prefill=[0], threads=[[('insert', 1)], [('insert', 2)], [('insert', 3)]], preemptions=(2 if th else 1), ncpu=4, yield_loads=False, inv='resize'),
+        ConcScenario('coop/tree-replaced-vs-resize', hasher='const', capacity=40, prefill=list(range(10)), setup_removes=[0, 1, 2], threads=[[('compute_none', 3)], [('reserve', 40)]], preemptions=(2 if th else 1), ncpu=2, yield_loads=False, inv='resize'),
+    ]
+    if th:
+        cs.append(ConcScenario('coop/insert-x2/32bins-helpers', hasher='identity', capacity=20, prefill=list(range(23)), threads=[[('insert', 23)], [('insert', 24)]], preemptions=2, ncpu=4, yield_loads=False, inv='resize'))
+        cs.append(ConcScenario('coop/reserve-x3', hasher='identity', capacity=1, prefill=[0], threads=[[('reserve', 6)], [('reserve', 12)], [('reserve', 6)]], preemptions=2, ncpu=4, yield_loads=False, inv='resize'))
+    res = run_conc(cs)
+    chk.bounds['part2'] = '%d scenarios of 2-3 logical threads that initiate / help / finish resizes of 2..64-bin tables (thorough: a 32-bin table with two strides), <= %d preemptions; num_cpus modelled as 2-4 so helpers get strides' % (len(cs), pz)
+    report(chk, 'C10', res, cs, describe='generation asserts hold, every bin migrated once, single publication, end state not resizing, history linearizable')
     # part-1 findings: replay through the inspector (threshold after growing from every small length)
     if findings:
         from .. import native
@@ -216,6 +368,34 @@ def run(tier: str) -> int:
                 chk.violation('resize-arithmetic:' + name[:60], 'obligation `%s` fails (solver model %s)\nnative: %s' % (name, mdl, ' | '.join(bad[:5])), REPLAY, 'resize_replay.rs')
             else:
                 chk.inconclusive.append('obligation `%s` fails (%s) but the native resize replay saw no discrepancy' % (name, mdl))
+    # rely-guarantee failures: the counterexample is an interference (what other threads did between two reads), not a
+    # schedule of this thread.  It is confirmed natively by a stress run of the unchanged crate: many threads grow a small map
+    # through several generations at once; a reproduction is a map left in a resizing state after every thread has returned,
+    # a panic in the resize asserts, or a panic in drop(map).
+    if rg_fail:
+        from .. import native
+        import os
+        src = open(os.path.join(C.VERIF, 'native', 'rg_stress.rs')).read()
+        secs = 40 if tier == 'quick' else 180
+        outs = []
+        hit = None
+        for nthreads in (8, 16):
+            try:
+                p = native.run_program('rgstress', src, [str(secs), str(nthreads)], release=True, timeout=secs + 240)
+                line = (p.stdout or '').strip().split('\n')[-1]
+            except native.subprocess.TimeoutExpired:
+                line = 'stress rounds=? bad=1 first=the stress run did not return within %d s (threads blocked)' % (secs + 240)
+            outs.append(line)
+            m = re.search(r'bad=(\d+) first=(.*)', line)
+            if m and int(m.group(1)) > 0:
+                hit = line
+                break
+        for fname, name, info, span in rg_fail:
+            desc = '%s\nsolver counterexample (interference between two reads of %s): %s\n' % (name, fname.split('::')[-1], info)
+            if hit:
+                chk.violation('generation-overlap:%s' % fname.split('::')[-1], desc + 'native stress replay (release build, unmodified crate + inspector): ' + hit, '// args: %d 8\n%s' % (secs, src), 'rg_stress.rs')
+            else:
+                chk.inconclusive.append('%s fails (%s) but %d s of native stress did not show an overlap (%s)' % (name[:120], info, secs, outs))
     return chk.finish()
 
 
